@@ -5,4 +5,7 @@ HERE=$(dirname "$(realpath "$0")")
 ROOT=$(realpath "$HERE/../../..")
 mkdir -p "$ROOT/.bin"
 (cd "$ROOT/mc" && go build -race -o "$ROOT/.bin/c12race" ./checks/c12race)
+# the same explorer built with the race detector: its scheduler hands control over through
+# raw pipe syscalls, so every explored schedule is also a race check (see _shim/sched/handoff_pipe.go)
+OUT=c12r "$ROOT/mc/engineb-build.sh" c12 -race
 exec "$ROOT/mc/engineb-build.sh" c12
